@@ -159,6 +159,14 @@ func main() {
 		for _, o := range s.Obs {
 			fmt.Println(o.V, o.Rule, o.Key, o.Detail)
 		}
+	case "p4":
+		rules.P4(rc)
+		for _, o := range s.Obs {
+			if !o.Trivial {
+				fmt.Println(o.V, o.Rule, o.Key, o.Detail)
+			}
+		}
+		fmt.Println(s.Analysed, time.Since(t0))
 	case "k1w":
 		rules.K1w(rc, nil, 0)
 		for _, o := range s.Obs {
